@@ -96,7 +96,7 @@ func (n *Node) Build() expr.Expr {
 			return expr.OR(l, r)
 		}
 	case "if":
-		return expr.IF(Conds[n.C], n.Kids[0].Build())
+		return expr.IF(Conds[n.C%100], n.Kids[0].Build())
 	case "bounded":
 		return expr.BOUNDED(n.Kids[0].Build(), n.Lo, n.Hi)
 	case "shift":
@@ -158,7 +158,7 @@ func (n *Node) SQL() string {
 	case "bin":
 		return fmt.Sprintf("(%s %s %s)", n.Kids[0].SQL(), n.Name, n.Kids[1].SQL())
 	case "if":
-		return fmt.Sprintf("IF(%s, %s)", CondText[n.C], n.Kids[0].SQL())
+		return fmt.Sprintf("IF(%s, %s)", CondText[n.C%100], n.Kids[0].SQL())
 	case "bounded":
 		return fmt.Sprintf("BOUNDED(%s, %v, %v)", n.Kids[0].SQL(), n.Lo, n.Hi)
 	case "shift":
